@@ -238,6 +238,7 @@ def run_history(case, schedule):
             SNT._run = base_run
             world.scheduler = None
     res['decisions'] = sc.decisions
+    res['timeout_diag'] = sc.timeout_diag
     res['preemptions'] = sc.preemptions
     res['deadlock'] = sc.deadlock
     res['steps'] = sc.steps
@@ -255,7 +256,7 @@ def check(ctx, case, schedule, r):
     sub = dict(case, schedule=list(schedule))
     if r['outcome'] == 'timeout':
         from vlib.core import HarnessError
-        raise HarnessError('C16 history hit the harness wall-clock guard')
+        raise HarnessError('C16 history hit the harness wall-clock guard: %r' % (r.get('timeout_diag'),))
     calls = r['calls']
     # S3
     for c in calls:
